@@ -214,6 +214,23 @@ type Target struct {
 	accepts int32
 	newConn chan *TargetConn
 	closed  int32
+	unix    string // socket path of a unix-domain target
+}
+
+var unixTargetSeq int32
+
+// NewUnixTarget starts a target on a unix-domain stream socket (its kernel buffering is an order of magnitude smaller
+// than a loop-back TCP connection's, so unread data really waits in the tunnel).
+func NewUnixTarget(name string, handler func(tc *TargetConn)) *Target {
+	path := fmt.Sprintf("%s/verif-tgt-%d-%d.sock", os.TempDir(), os.Getpid(), atomic.AddInt32(&unixTargetSeq, 1))
+	os.Remove(path)
+	ln, err := net.Listen("unix", path)
+	if err != nil {
+		panic("vlib: cannot start unix target: " + err.Error())
+	}
+	t := &Target{Name: name, ln: ln, Handler: handler, newConn: make(chan *TargetConn, 1024), unix: path}
+	go t.loop()
+	return t
 }
 
 // NewTarget starts a target; handler runs in its own goroutine per accepted connection.
@@ -237,7 +254,12 @@ func NewTarget(name string, handler func(tc *TargetConn)) *Target {
 }
 
 func (t *Target) Addr() string { return HostPort(t.Port) }
-func (t *Target) URL() string  { return "tcp://" + t.Addr() }
+func (t *Target) URL() string {
+	if t.unix != "" {
+		return "unix://" + t.unix
+	}
+	return "tcp://" + t.Addr()
+}
 
 func (t *Target) loop() {
 	for {
